@@ -11,6 +11,14 @@ from vivarium.core.emitter import Emitter
 from vivarium.core.registry import emitter_registry, updater_registry
 
 
+def add_counts(current, update):
+    """Updater of a dictionary-valued variable: adds the amounts key by key."""
+    result = dict(current)
+    for key, amount in update.items():
+        result[key] = result.get(key, 0) + amount
+    return result
+
+
 class BudgetExceeded(BaseException):
     """More clock assignments in one run_for() than any terminating schedule
     of this size can need (logical non-termination witness)."""
@@ -198,6 +206,11 @@ class Ledger(Process):
             # process builds once and returns at every invocation
             schema['da'] = {'x': {'_default': 0, '_emit': True}, 'g': {'u': {'_default': 0, '_emit': True}}}
             schema['db'] = {'y': {'_default': 0, '_emit': True}, 'g': {'v': {'_default': 0, '_emit': True}}}
+            if self.parameters.get('tally'):
+                # one dictionary-valued VARIABLE (its updater adds the counts key by key) declared by both ports;
+                # the two ports send different key sets
+                schema['da']['tally'] = {'_default': {}, '_updater': add_counts, '_emit': True}
+                schema['db']['tally'] = {'_default': {}, '_updater': add_counts, '_emit': True}
         return schema
 
     def calculate_timestep(self, states):
@@ -253,6 +266,9 @@ class Ledger(Process):
         if self.parameters.get('pair'):
             if not hasattr(self, '_pair'):
                 self._pair = ({'x': amount, 'g': {'u': amount}}, {'y': 10 * amount, 'g': {'v': 10 * amount}})
+                if self.parameters.get('tally'):
+                    self._pair[0]['tally'] = {'a': amount, 'b': 2 * amount}
+                    self._pair[1]['tally'] = {'a': 3 * amount}
             upd['da'], upd['db'] = self._pair
         tg = self.parameters.get('toggle')
         if tg and self.k % tg == 0:
